@@ -874,7 +874,10 @@ pub proof fn lemma_message_fits(m: Message) requires constructible(m) ensures m.
 //@        r == (match other { AddressType::Ipv4 => 1u8, AddressType::Ipv6 => 2u8, AddressType::Dns => 3u8, AddressType::Onion => 4u8 })
 //@  impl TryFrom<u8> for AddressType
 //@    fn try_from
-//@      attr #[verifier::external_body] // 7-line match: contract ASSUMED (Verus prunes the TryFromSpecImpl of a type from the query of that type's own try_from -- dependency cycle -- so vstd's generic clause cannot be discharged here)
+//@      attr #[verifier::external_body] // contract assumed IN PLACE only (Verus prunes the TryFromSpecImpl of a type from the query of that type's own try_from -- dependency cycle -- so vstd's generic clause cannot be discharged here); the real body is verified against this same contract as the twin below
+//@      twin vx_twin_address_type_try_from
+//@        sig (other: u8) -> (r: Result<AddressType, u8>)
+//@        self_is AddressType
 //@      ret r
 //@      ensures
 //@        r == (match other { 1u8 => Ok::<AddressType, u8>(AddressType::Ipv4), 2u8 => Ok(AddressType::Ipv6), 3u8 => Ok(AddressType::Dns), 4u8 => Ok(AddressType::Onion), _ => Err(other) })
@@ -944,7 +947,10 @@ pub proof fn lemma_message_fits(m: Message) requires constructible(m) ensures m.
 //@        r == 1
 //@  impl TryFrom<u16> for InfoType
 //@    fn try_from
-//@      attr #[verifier::external_body] // 4-line match: contract ASSUMED (Verus prunes the TryFromSpecImpl of a type from the query of that type's own try_from -- dependency cycle -- so vstd's generic clause cannot be discharged here)
+//@      attr #[verifier::external_body] // contract assumed IN PLACE only (Verus prunes the TryFromSpecImpl of a type from the query of that type's own try_from -- dependency cycle -- so vstd's generic clause cannot be discharged here); the real body is verified against this same contract as the twin below
+//@      twin vx_twin_info_type_try_from
+//@        sig (other: u16) -> (r: Result<InfoType, u16>)
+//@        self_is InfoType
 //@      ret r
 //@      ensures
 //@        r == (if other == 1 { Ok::<InfoType, u16>(InfoType::RefsAlreadySynced) } else { Err(other) })
